@@ -1,4 +1,5 @@
 import Redproxy.Model.Reply
+import Redproxy.Props.C03
 /-!
   C06 — the client is told "established" iff the upstream is; every failure gets one complete reply.
 
@@ -149,5 +150,30 @@ theorem refused_gets_failure (p : Proto) (target : Addr) (msg : Bytes)
   rcases client_sees_one_reply x q fuel conns rules connectOk relayOk p target msg with ⟨h1, _⟩ | ⟨_, c, hc, _⟩
   · exact h1
   · exact absurd hc (h c)
+
+/-! ## across two hops: what an HTTP listener's `on_connect` writes is what an HTTP connector's `h11c_connect` accepts -/
+
+def okResp : Http.Resp :=
+  { version := strB "HTTP/1.1", code := 200, status := strB "Connection established", headers := [] }
+
+theorem okResp_ok : C03.RespOk okResp := by
+  refine ⟨by decide +kernel, by decide +kernel, by decide +kernel, by decide +kernel, by decide +kernel,
+    ⟨strB "Connection establishe", 100, by decide +kernel, by decide⟩, by decide +kernel, ?_⟩
+  intro kv hkv
+  simp [okResp] at hkv
+
+/-- the success reply reaches the next hop's connector as success — and the first tunnel bytes sent right behind it
+(`rest`, any bytes) are handed to the tunnel intact: "established" is told consistently along a chain of proxies -/
+theorem http_ok_accepted_downstream (tbl : V6Tbl) (t : Addr) (ch bs : Bytes) (req : Http.Req) (rest : Bytes) (w : W)
+    (fuel : Nat) (hreq : Http.connectRequest tbl t .tcp ch bs = some req) (hf : 0 < fuel) :
+    (runFlat httpOk [] {}).2.2 = { flushed := C03.respBytes okResp, pending := [] } ∧
+    (runFlat (Http.connectExchange tbl t .tcp ch bs fuel) (C03.respBytes okResp ++ rest) w).1 = .ok none ∧
+    (runFlat (Http.connectExchange tbl t .tcp ch bs fuel) (C03.respBytes okResp ++ rest) w).2.1 = rest := by
+  have h := C03.connect_exchange_verdict tbl t ch bs req okResp rest w fuel hreq okResp_ok (by simpa [okResp] using hf)
+  refine ⟨?_, ?_, h.2⟩
+  · have := C03.writeResponse_writes okResp [] {}
+    simpa [httpOk, okResp] using congrArg (fun x => x.2.2) this
+  · have hc : okResp.code = 200 := rfl
+    simpa [hc] using h.1
 
 end Redproxy.Props.C06
